@@ -306,9 +306,8 @@ def write_support_file(mon,log_file='paramlog.py',**kwds):
   NOTE: params are the transpose of how they are stored in monitor.x
   """
   if isNull(mon): return  #XXX: throw error? warning? ???
-  monitor = write_monitor( *raw_to_support( *read_monitor(mon) ) )
+  monitor = write_monitor( *raw_to_support( *read_monitor(mon) ), k=mon.k )
   monitor._id = mon._id[:] #HACK: workaround loss of id above
-  monitor.k = mon.k #HACK: workaround loss of k above (ensure is copy?)
   header = "written in 'support' format"
   if 'header' in kwds:
     header += "\n# " + str(kwds['header'])
@@ -318,9 +317,8 @@ def write_support_file(mon,log_file='paramlog.py',**kwds):
 
 def write_converge_file(mon,log_file='paramlog.py',**kwds):
   if isNull(mon): return  #XXX: throw error? warning? ???
-  monitor = write_monitor( *raw_to_converge( *read_monitor(mon) ) )
+  monitor = write_monitor( *raw_to_converge( *read_monitor(mon) ), k=mon.k )
   monitor._id = mon._id[:] #HACK: workaround loss of id above
-  monitor.k = mon.k #HACK: workaround loss of k above (ensure is copy?)
   header = "written in 'converge' format"
   if 'header' in kwds:
     header += "\n# " + str(kwds['header'])
